@@ -73,6 +73,12 @@ class NamedIdentity(nnx.Module):
 
 
 @onnx_function
+def fn_pick(a, b, use_a: bool = False):
+    """Two tensor operands; with use_a=False the FIRST operand is never read by the body."""
+    return (a * 2.0 + b) if use_a else b * 3.0
+
+
+@onnx_function
 def fn_shift(x, b):
     """Binary target: the second positional argument is DATA (a run-time input of the function),
     even when a call site happens to pass a compile-time constant."""
@@ -305,6 +311,12 @@ class Net(nnx.Module):
 
     def __call__(self, x):
         return self.norm(self.b2(self.b1(x)))
+
+
+@jax.checkpoint
+def ckpt_helper(x):
+    # a rematerialised block that calls a decorated function: its trace is cached by JAX
+    return fn_sin2(x) * 0.5 + x
 
 
 @jax.jit
@@ -621,6 +633,10 @@ def _rope():
 # an Equinox layer that keeps a process-wide table cache of its own (keyed by size and dtype)
 BUILDERS["eqx_rope"] = lambda: _p("eqx_rope", _rope(), [(6, 8)])
 BUILDERS["eqx_rope_long"] = lambda: _p("eqx_rope_long", _rope(), [(24, 8)])
+BUILDERS["ckpt_fn"] = lambda: _p("ckpt_fn", lambda x: ckpt_helper(x) + 1.0, [(3, 4)])
+BUILDERS["nchw_named"] = lambda: _p("nchw_named", _single("resconv", lambda: ResConv(3, 1)), [(1, 6, 6, 3)], inputs_as_nchw=[0], outputs_as_nchw=[0], input_names=["image"], output_names=["features"])
+BUILDERS["params_named"] = lambda: _p("params_named", (lambda m: (lambda x, **kw: m(x) + 1.0))(_single("outerflags", lambda: OuterFlags(3))), [(2, 4)], input_params={"deterministic": True, "frozen": True}, input_names=["tokens"], output_names=["logits"])
+BUILDERS["f64_named"] = lambda: _p("f64_named", lambda x, y: (jnp.tanh(x) * y, x - y), [(3, 4), (3, 4)], x64=True, input_names=["a", "b"], output_names=["p", "d"])
 BUILDERS["named_io"] = lambda: _p("named_io", lambda x, y: (x + y, x * y), [(3, 4), (3, 4)], input_names=["lhs", "rhs"], output_names=["sum", "prod"])
 # float16 programs (narrower than the export's default float)
 BUILDERS["f16_elementwise"] = lambda: _p("f16_elementwise", lambda x, y: x * y + x, [(3, 4), (3, 4)], dtypes=[np.float16, np.float16])
